@@ -33,6 +33,9 @@ func (m *Mutex) Lock() {
 	}
 	s := cur
 	for m.held {
+		if s.res.Deadlock {
+			panic(DeadlockPanic)
+		}
 		s.block(unsafe.Pointer(m))
 	}
 	m.held = true
@@ -111,13 +114,31 @@ func (s *sched) block(addr unsafe.Pointer) {
 		}
 	}
 	if next < 0 {
-		s.res.Deadlock = true
+		// Deadlock. The calls involved can never return; make that observable instead
+		// of hanging the simulation: every blocked worker is released in turn and
+		// panics out of its Lock (the harness records the panic as the call's result,
+		// which no alone-run produces).
+		s.deadlock()
 		w.blockedOn = nil
-		panic("simrt: deadlock: every unfinished worker is blocked on a lock")
+		panic(DeadlockPanic)
 	}
 	s.res.Blocks++
 	s.switchTo(next, siteLockAcquired)
 	w.blockedOn = nil
+	if s.res.Deadlock {
+		panic(DeadlockPanic)
+	}
+}
+
+// DeadlockPanic is the value a worker panics with when the simulated run deadlocked.
+const DeadlockPanic = "simrt: deadlock: the call can never return (every unfinished caller is blocked on a lock)"
+
+//go:norace
+func (s *sched) deadlock() {
+	s.res.Deadlock = true
+	for _, o := range s.ws {
+		o.blockedOn = nil
+	}
 }
 
 //go:norace
